@@ -13,6 +13,7 @@ import (
 	"bytes"
 	"encoding/json"
 	"fmt"
+	"strings"
 	"testing"
 
 	sdk "github.com/cosmos/cosmos-sdk/types"
@@ -58,13 +59,32 @@ func anteOnly(cs []dump.Change, signer sdk.AccAddress) (bool, string) {
 	return true, ""
 }
 
-func c12RunAttempts(t rec.TB, r *rec.Rec, cs *c12Case, c *world.Chain, atts []c12Attempt, naccs int) {
+func c12RunAttempts(t rec.TB, r *rec.Rec, cs *c12Case, c *world.Chain, atts []c12Attempt, naccs int, foreign func(sdk.AccAddress) string) {
 	for _, a := range atts {
 		for att := 0; att < naccs; att++ {
 			if att == a.Owner {
 				continue
 			}
 			if a.hasOwn != nil && a.hasOwn(c.Accs[att].Addr) {
+				// the sender holds a position of its own that this message legitimately acts on: it may
+				// succeed, but every position record that belongs to somebody else must stay as it is
+				// (run on a branch that is thrown away, so that later attempts see the same state)
+				msg := a.build(c.Accs[att].Addr)
+				if msg.ValidateBasic() != nil {
+					continue
+				}
+				save := c.Ctx
+				cctx, _ := c.Ctx.CacheContext()
+				c.Ctx = cctx
+				before := foreign(c.Accs[att].Addr)
+				_, err := c.Deliver(msg)
+				after := foreign(c.Accs[att].Addr)
+				c.Ctx = save
+				r.Class("attempt-with-own-position:" + a.Kind)
+				if before != after {
+					r.Fail(t, "C12.message-on-own-position-changes-foreign-position", a.Kind, cs,
+						"%s sent by account %d (err=%v) changed position records of other accounts:\n%s", a.Kind, att, err, lineDiff(before, after))
+				}
 				continue
 			}
 			msg := a.build(c.Accs[att].Addr)
@@ -103,6 +123,95 @@ func c12RunAttempts(t rec.TB, r *rec.Rec, cs *c12Case, c *world.Chain, atts []c1
 				r.Class("owner-control-fails:" + a.Kind)
 			}
 		}
+	}
+}
+
+// lineDiff lists the lines present in only one of two line-oriented digests.
+func lineDiff(a, b string) string {
+	inA := map[string]bool{}
+	for _, l := range strings.Split(a, "\n") {
+		inA[l] = true
+	}
+	inB := map[string]bool{}
+	for _, l := range strings.Split(b, "\n") {
+		inB[l] = true
+	}
+	var out []string
+	for _, l := range strings.Split(a, "\n") {
+		if !inB[l] {
+			out = append(out, "- "+l)
+		}
+	}
+	for _, l := range strings.Split(b, "\n") {
+		if !inA[l] {
+			out = append(out, "+ "+l)
+		}
+	}
+	if len(out) > 8 {
+		out = out[:8]
+	}
+	return strings.Join(out, "\n")
+}
+
+// c12VaultForeign digests every vault, locker and limit bid that does not belong to `from`.
+func c12VaultForeign(m *vMachine) func(sdk.AccAddress) string {
+	return func(from sdk.AccAddress) string {
+		c := m.c
+		var b strings.Builder
+		for _, v := range c.App.VaultKeeper.GetVaults(c.Ctx) {
+			if v.Owner != from.String() {
+				fmt.Fprintf(&b, "vault %d %s in=%s out=%s\n", v.Id, v.Owner, v.AmountIn, v.AmountOut)
+			}
+		}
+		for _, l := range c.App.LockerKeeper.GetLockers(c.Ctx) {
+			if l.Depositor != from.String() {
+				fmt.Fprintf(&b, "locker %d %s net=%s\n", l.LockerId, l.Depositor, l.NetBalance)
+			}
+		}
+		cfg := &m.cs.Cfg
+		for _, d := range cfg.Assets[cfg.NColl:] {
+			for _, col := range cfg.Assets[:cfg.NColl] {
+				for prem := int64(0); prem <= 30; prem++ {
+					bids, _ := c.App.NewaucKeeper.GetUserLimitBidDataByPremium(c.Ctx, d.ID, col.ID, sdk.NewInt(prem))
+					for _, lb := range bids {
+						if lb.BidderAddress != from.String() {
+							bz, _ := json.Marshal(lb)
+							fmt.Fprintf(&b, "limitbid %s\n", bz)
+						}
+					}
+				}
+			}
+		}
+		return b.String()
+	}
+}
+
+// c12LiquidityForeign digests every order and farm position that does not belong to `from`.
+func c12LiquidityForeign(m *lMachine) func(sdk.AccAddress) string {
+	return func(from sdk.AccAddress) string {
+		c := m.c
+		var b strings.Builder
+		for _, a := range m.cs.Cfg.Apps {
+			for _, o := range m.k.GetAllOrders(c.Ctx, a.ID) {
+				if o.Orderer != from.String() {
+					fmt.Fprintf(&b, "order app=%d pair=%d id=%d %s %s open=%s remaining=%s received=%s\n", o.AppId, o.PairId, o.Id, o.Orderer, o.Status, o.OpenAmount, o.RemainingOfferCoin, o.ReceivedCoin)
+				}
+			}
+			for _, pool := range m.k.GetAllPools(c.Ctx, a.ID) {
+				for _, f := range m.k.GetAllActiveFarmers(c.Ctx, a.ID, pool.Id) {
+					if f.Farmer != from.String() {
+						fmt.Fprintf(&b, "farm app=%d pool=%d %s %s\n", a.ID, pool.Id, f.Farmer, f.FarmedPoolCoin)
+					}
+				}
+				for _, f := range m.k.GetAllQueuedFarmers(c.Ctx, a.ID, pool.Id) {
+					if f.Farmer != from.String() {
+						bz, _ := json.Marshal(f.QueudCoins)
+						fmt.Fprintf(&b, "queued app=%d pool=%d %s %s\n", a.ID, pool.Id, f.Farmer, bz)
+					}
+				}
+			}
+		}
+		return b.String()
 	}
 }
 
@@ -291,7 +400,7 @@ func TestC12_positions(t *testing.T) {
 					vc.Ops = append(vc.Ops, op)
 					m.apply(i, op)
 				}
-				c12RunAttempts(rt, r, cs, m.c, c12VaultAttempts(m), vc.Cfg.NUsers)
+				c12RunAttempts(rt, r, cs, m.c, c12VaultAttempts(m), vc.Cfg.NUsers, c12VaultForeign(m))
 			} else {
 				lc := &lCase{Cfg: genLCfg(rt)}
 				cs.L = lc
@@ -303,7 +412,7 @@ func TestC12_positions(t *testing.T) {
 					m.apply(i, op)
 				}
 				// attackers: the liquidity providers, the market makers and two traders
-				c12RunAttempts(rt, r, cs, m.c, c12LiquidityAttempts(m), lNumLP+lNumMM+2)
+				c12RunAttempts(rt, r, cs, m.c, c12LiquidityAttempts(m), lNumLP+lNumMM+2, c12LiquidityForeign(m))
 				m.finish()
 			}
 		})
@@ -322,13 +431,13 @@ func init() {
 			for i, op := range cs.V.Ops {
 				m.apply(i, op)
 			}
-			c12RunAttempts(t, r, &cs, m.c, c12VaultAttempts(m), cs.V.Cfg.NUsers)
+			c12RunAttempts(t, r, &cs, m.c, c12VaultAttempts(m), cs.V.Cfg.NUsers, c12VaultForeign(m))
 		} else {
 			m := newLMachine(t, r, "C12", cs.L)
 			for i, op := range cs.L.Ops {
 				m.apply(i, op)
 			}
-			c12RunAttempts(t, r, &cs, m.c, c12LiquidityAttempts(m), lNumLP+lNumMM+2)
+			c12RunAttempts(t, r, &cs, m.c, c12LiquidityAttempts(m), lNumLP+lNumMM+2, c12LiquidityForeign(m))
 		}
 	}
 }
